@@ -187,7 +187,7 @@ func c11Run(p *c11Plan) {
 	erp, _ := newProvider(p.Workers, nil)
 	vs := newGlobalScope()
 	probes := map[int][]c11Probe{}
-	vs.SetValue("probe", &goFunc{"probe", func(tid uint64, args []interface{}) (interface{}, error) {
+	vs.SetValue("probe", &goFunc{name: "probe", f: func(tid uint64, args []interface{}) (interface{}, error) {
 		if len(args) != 5 {
 			simrt.Fail("oracle:probe", "probe-args", "probe called with %d args", len(args))
 		}
